@@ -74,3 +74,46 @@ def static_gas(block, push0, flat_exp=False):
         elif n in evm.CALLS:
             g += 2600
     return g
+
+
+def static_storage_gas(block, sreset=2900):
+    """The *static* price of the storage accesses of a block, as a static gas model can know it: an SLOAD/SSTORE is
+    warm iff an earlier access of the block has a syntactically identical key term (no constant folding, no
+    knowledge of values); SSTORE additionally 100 when the same key term was stored before in the block, otherwise
+    the reset price.  Written independently of the repository (own symbolic stack of term strings); used only to
+    classify gas increases (monitors/c08.py), never as the verdict."""
+    need, _ = evm.stack_effect(block)
+    st = ["s%d" % i for i in range(need)]
+    touched, stored = set(), set()
+    g = 0
+    for n, v in block:
+        if n == "PUSH":
+            st.insert(0, "c%x" % int(v, 16))
+        elif n == "PUSH0":
+            st.insert(0, "c0")
+        elif n.startswith("DUP") and n[3:].isdigit():
+            st.insert(0, st[int(n[3:]) - 1])
+        elif n.startswith("SWAP") and n[4:].isdigit():
+            k = int(n[4:])
+            st[0], st[k] = st[k], st[0]
+        elif n == "POP":
+            st.pop(0)
+        elif n == "SLOAD":
+            k = st.pop(0)
+            g += 100 if k in touched else 2100
+            touched.add(k)
+            st.insert(0, "SLOAD(%s)" % k)
+        elif n == "SSTORE":
+            k = st.pop(0)
+            st.pop(0)
+            g += (0 if k in touched else 2100) + (100 if k in stored else sreset)
+            touched.add(k)
+            stored.add(k)
+        else:
+            ar = evm.ARITY.get(n)
+            if ar is None:
+                break
+            args = [st.pop(0) for _ in range(ar[0])] if len(st) >= ar[0] else []
+            for i in range(ar[1]):
+                st.insert(0, "%s%s(%s)" % (n, "" if v is None else "<%s>" % v, ",".join(args)))
+    return g
